@@ -51,6 +51,24 @@ def run(ctx):
     for base in ctx.suite_names:
         sn = base + '-remote'
         S = ctx.suite(sn)
+        # R18.7 stored state: the setup is written as seed || the external key's own encoding || fake key, whatever the length of that
+        # encoding (the harness's external key is 80 bytes, no group's scalar length), and that image reloads
+        X = Sym('x')
+        ss = ctx.summary(sn, DECODERS['ServerSetup'] + '::serialize', params=[X])
+        P = suite_params(sn)
+        good = ss.complete and len(ss.paths) == 1 and not ss.diverged
+        enc = ss.paths[0].value if good else None
+        if good:
+            parts = cat_parts(enc)
+            good = (len(parts) == 3 and parts[1][0] == 'app' and parts[1][1] == 'SecretKey::serialize' and parts[2][0] == 'app' and parts[2][1] == 'KeGroup::serialize_sk'
+                    and tlen(enc) == P['Nh'] + 80 + P['Nsk'])
+        rep.ob('R18.7', 'ServerSetup::serialize (external key) = oprf_seed || SecretKey::serialize(key) || fake key, without panicking', good,
+               'serialize(x) = %s ; diverging paths %d' % (show(enc)[:200] if enc is not None else ss.notes[:2], len(ss.diverged)), where_of(ss), sn,
+               sample='setup image: %s' % (show(enc)[:100] if enc is not None else '-'))
+        if enc is not None:
+            d = ctx.summary(sn, DECODERS['ServerSetup'] + '::deserialize', params=[enc], honest=True)
+            rep.ob('R18.7', 'ServerSetup::deserialize (external key) accepts the image serialize wrote', len(d.ok_paths) == 1 and not d.diverged,
+                   'ok paths %d, diverging %d; first error %s' % (len(d.ok_paths), len(d.diverged), show(d.err_paths[0].payload)[:160] if d.err_paths else '-'), where_of(d), sn)
         # R18.1 registration start: no SecretKey call
         s = api_summary(ctx, sn, 'sreg_start')
         w = where_of(s)
